@@ -75,17 +75,18 @@ func Step(ctx context.Context, client lungo.IClient, profile string, i int) erro
 // id with a content hash, index definitions) without anything that differs
 // from run to run (change-log timestamps).
 func Describe(cat *lungo.Catalog) string {
-	var names []string
+	var handles []lungo.Handle
 	for h := range cat.Namespaces {
 		if h[0] != lungo.Local {
-			names = append(names, h.String())
+			handles = append(handles, h)
 		}
 	}
-	sort.Strings(names)
+	sort.Slice(handles, func(i, j int) bool { return handles[i][0]+"/"+handles[i][1] < handles[j][0]+"/"+handles[j][1] })
 	var sb strings.Builder
-	for _, n := range names {
-		var ns = cat.Namespaces[lungo.Handle{n[:strings.Index(n, ".")], n[strings.Index(n, ".")+1:]}]
-		fmt.Fprintf(&sb, "[%s]", n)
+	for _, h := range handles {
+		ns := cat.Namespaces[h]
+		// (database and collection are rendered separately: "e"/"c2.x" and "e.c2"/"x" must differ)
+		fmt.Fprintf(&sb, "[%s/%s]", h[0], h[1])
 		for _, d := range ns.Documents.List {
 			b, _ := bson.Marshal(d)
 			fmt.Fprintf(&sb, " %x", sha1.Sum(b))
